@@ -197,11 +197,12 @@ def check(repo: Repo, rep: Report) -> None:
     oinit = repo.fn("reactivex/observable/observable.py", "Observable.__init__")
     ocls = repo.fn("reactivex/observable/observable.py", "Observable")
     eager = any(isinstance(s.node, ast.Assign) and u(s.node.targets[0]) == "self.lock" and isinstance(s.node.value, ast.Call)
-                and call_name(s.node.value) in ("RLock", "Lock") and not s.ctx.branch for s in sites(oinit))
+                and call_name(s.node.value) == "RLock" and not s.ctx.branch for s in sites(oinit))
     lazy = ocls.child("lock") is not None
-    rep.ob("K5-one-lock-object", oinit, "Observable.__init__: self.lock = threading.RLock() (no lazy `lock` property)", eager and not lazy,
-           "`source.lock` is not allocated once in Observable.__init__ (lazy / cached property): two source threads that reach it first at "
-           "the same time each get their own lock object, and the combinator's critical sections no longer exclude each other")
+    rep.ob("K5-one-lock-object", oinit, "Observable.__init__: self.lock = threading.RLock() (re-entrant; no lazy `lock` property)", eager and not lazy,
+           "`source.lock` is not one re-entrant lock allocated in Observable.__init__: a lazy / cached property gives two source threads that "
+           "reach it first their own lock objects; a plain Lock deadlocks the combinators, which call downstream while holding it, as soon as "
+           "the subscriber feeds one of the sources from inside its callback")
     for rel, path in COMBINATORS:
         root = repo.fn(rel, path)
         cov = Coverage(root)
